@@ -270,7 +270,7 @@ impl Check for C04 {
             "states whose single datagram exceeds the client's receive size (GS2 1024, GS3 2048 bytes) are observe-only".into(),
         ]
     }
-    fn total_cases(&self, tier: Tier) -> u64 { tier.pick(200_000, 2_000_000) }
+    fn total_cases(&self, tier: Tier) -> u64 { tier.pick(500_000, 2_000_000) }
     fn run_case(&mut self, cx: &mut Cx) {
         match cx.idx % 8 {
             0 | 1 => self.gs1(cx, false),
